@@ -42,7 +42,9 @@
 (*     replaced nothing resolved through the old one is served.            *)
 (*  I5 durability  a successful write never makes an earlier object        *)
 (*     unreadable - also when the handle was opened without initialize()   *)
-(*     (it may refuse instead).                                            *)
+(*     (it may refuse instead); and after a successful write the object    *)
+(*     reads back exactly, also when an earlier copy of it had been        *)
+(*     damaged and read (C04's statement over histories with damage).      *)
 (*  I6 books  stats(): index_entries = number of objects filed,            *)
 (*     index_files = number of buckets in use, archive_files/archive_size  *)
 (*     = the data files as the file system has them, path = the path       *)
@@ -119,7 +121,7 @@ St == INSTANCE Storage WITH KnownDeviations <- {}, Threshold <- 67108864
 Rs == INSTANCE Resolve WITH Defects <- {}, model <- <<>>, built <- <<>>, cfg <- <<>>, res <- <<>>
 Rd == INSTANCE Residency
 
-AllDevs == {"FX08a", "FX08b", "FX08c", "FX08d", "FX08e", "FX08f", "FX08g", "FX08h", "FX08i", "FX08j"}
+AllDevs == {"FX08a", "FX08b", "FX08c", "FX08d", "FX08e", "FX08f", "FX08g", "FX08h", "FX08i", "FX08j", "FX08k"}
 
 InPut(m, k, v)    == [x \in DOMAIN m \cup {k} |-> IF x = k THEN v ELSE m[x]]
 InPutNew(m, k, v) == IF k \in DOMAIN m THEN m ELSE InPut(m, k, v)
@@ -149,9 +151,10 @@ InOutOf(h, e)    == IF e.res = "ok" THEN InOk(InNameOf(h, e.md5)) ELSE InErr(e.r
    ghosts of the caches as the code keeps them (used only to explain listed deviations):
    rfd fdid -> payload (never cleared), pc path -> payload, cc ckeys the resolver remembers,
    ic cache cell -> payload, fuzzy: a failed batch read left the cells uncertain
-   lasthc: has_content_key answers of the previous read-back *)
+   rw: objects written successfully through this handle (a cell filled before such a write may hold what the
+   damaged copy gave); lasthc: has_content_key answers of the previous read-back *)
 InS0 == [a |-> St!A0, known |-> {}, dmg |-> {}, bad |-> {}, soft |-> {}, hurt |-> {}, root |-> "none", enc |-> "none",
-         init |-> TRUE, dead |-> FALSE, rfd |-> <<>>, pc |-> <<>>, cc |-> {}, ic |-> <<>>, fuzzy |-> FALSE, lasthc |-> <<>>]
+         init |-> TRUE, dead |-> FALSE, rw |-> {}, rfd |-> <<>>, pc |-> <<>>, cc |-> {}, ic |-> <<>>, fuzzy |-> FALSE, lasthc |-> <<>>]
 
 InFiles(h, r) == h.roots[r].files
 InPathMap(f)  == [b \in {f[i][2] : i \in 1..Len(f)} \ {"-"} |-> f[IgMin({i \in 1..Len(f) : f[i][2] = b})][3]]
@@ -174,11 +177,15 @@ InEkOK(I, y, out, D) ==
      /\ St!AReadOk(I.a, y, InCls(out, y), "na")
      /\ (y \notin (I.a.live \cup I.a.maybe) => out = InNF)
 
+\* FX08k: the request's own cache cell still holds what a damaged copy gave, although y has been written again since
+InStaleHit(I, cell, y, out, D) == "FX08k" \in D /\ cell \in DOMAIN I.ic /\ out = InOk(I.ic[cell]) /\ y \in I.rw
+
 \* ckey -> (ekey ->) bytes
 InCkOK(h, I, x, out, D) ==
   LET cell == "C:" \o x
       hit  == "FX08b" \in D /\ (cell \in DOMAIN I.ic \/ I.fuzzy)
   IN \/ hit /\ cell \in DOMAIN I.ic /\ out = InOk(I.ic[cell])
+     \/ InStaleHit(I, cell, x, out, D)
      \/ hit /\ I.fuzzy /\ out.k = "ok"
      \/ /\ ~("FX08b" \in D /\ cell \in DOMAIN I.ic)
         /\ IF "FX08a" \in D THEN out = InNF
@@ -195,6 +202,7 @@ InPathOK(h, I, s, out, D) ==
       cached == pi.cell \in DOMAIN I.ic
   IN \/ need \in D /\ cached /\ out = InOk(I.ic[pi.cell])
      \/ need \in D /\ I.fuzzy /\ out.k = "ok"
+     \/ LET c == InPathCk(h, I, s) IN c # <<>> /\ InStaleHit(I, pi.cell, c[1], out, D)
      \/ /\ ~(need \in D /\ cached)
         /\ LET c == InCodePathCk(h, I, s, D) IN IF c = <<>> THEN out = InNF ELSE InCkOK(h, I, c[1], out, D)
 
@@ -203,6 +211,7 @@ InFdOK(h, I, n, out, D) ==
   LET cached == InFdCell(n) \in DOMAIN I.ic
   IN \/ "FX08b" \in D /\ cached /\ out = InOk(I.ic[InFdCell(n)])
      \/ "FX08b" \in D /\ I.fuzzy /\ out.k = "ok"
+     \/ LET c == InFdCk(h, I, n) IN c # <<>> /\ InStaleHit(I, InFdCell(n), c[1], out, D)
      \/ /\ ~("FX08b" \in D /\ cached)
         /\ LET c == InCodeFdCk(h, I, n, D) IN IF c = <<>> THEN out = InNF ELSE InCkOK(h, I, c[1], out, D)
 
@@ -256,7 +265,7 @@ InResOK(h, I, e, D) ==
     [] e.op = "load_root" -> e.res = "ok"
     [] e.op = "load_enc"  -> e.res = "ok"
     [] e.op \in {"reopen", "reopen_raw", "cut", "rmdata"} -> e.res = "ok"
-    [] e.op = "read_e"    -> InEkOK(I, e.p, InOutOf(h, e), D)
+    [] e.op = "read_e"    -> InEkOK(I, e.p, InOutOf(h, e), D) \/ InStaleHit(I, "E:" \o e.p, e.p, InOutOf(h, e), D)
     [] e.op = "read_c"    -> LET out == InOutOf(h, e) IN
                              /\ out = InNF \/ InCkOK(h, I, e.p, out, D)
                              /\ (out = InNF /\ e.p \in DOMAIN I.lasthc) => I.lasthc[e.p] = "f"
@@ -281,7 +290,7 @@ InObsOK(h, J, e, D) ==
      /\ \A y \in DOMAIN h.pl :
           /\ o.he[y] = "t" => y \in J.known
           /\ (J.init /\ y \in J.known /\ ~gone(y)) => o.he[y] = "t"
-          /\ o.hc[y] = "t" => /\ J.init /\ y \in J.known
+          /\ o.hc[y] = "t" => /\ y \in J.known
                               /\ InCkEk(h, J, y) # <<>> \/ ("FX08b" \in D /\ y \in J.cc)
      /\ InSeqSet(o.listed) \subseteq J.known /\ Len(o.listed) = Cardinality(InSeqSet(o.listed)) /\ o.unknown = 0
      /\ J.init => \A y \in J.known : y \in InSeqSet(o.listed) \/ gone(y)
@@ -308,7 +317,7 @@ InBatchGhost(h, I, kind, args, e) ==
                  ELSE F(i + 1, InReadGhost(h, J, kind, args[i], IF e.res = "ok" THEN InOk(InNameOf(h, e.md5s[i])) ELSE InNF))
   IN IF e.res = "ok" THEN F(1, I) ELSE [F(1, I) EXCEPT !.fuzzy = TRUE]
 
-InClosed(I, initd) == [I EXCEPT !.root = "none", !.enc = "none", !.init = initd, !.rfd = <<>>, !.pc = <<>>, !.cc = {}, !.ic = <<>>,
+InClosed(I, initd) == [I EXCEPT !.rw = {}, !.root = "none", !.enc = "none", !.init = initd, !.rfd = <<>>, !.pc = <<>>, !.cc = {}, !.ic = <<>>,
                                 !.fuzzy = FALSE, !.lasthc = <<>>]
 InDamage(I, S, hard) == [I EXCEPT !.dmg = @ \cup S, !.bad = IF hard THEN @ \cup S ELSE @, !.soft = IF hard THEN @ ELSE @ \cup S]
 
@@ -316,7 +325,7 @@ InDamage(I, S, hard) == [I EXCEPT !.dmg = @ \cup S, !.bad = IF hard THEN @ \cup 
 InAfter0(h, I, e) ==
   CASE e.op = "write" ->
          IF e.res # "ok" THEN [I EXCEPT !.a = St!AWrite(@, e.p, FALSE)]
-         ELSE [I EXCEPT !.a = St!AWrite(@, e.p, TRUE), !.known = @ \cup {e.p}, !.dmg = @ \ {e.p}, !.bad = @ \ {e.p}, !.soft = @ \ {e.p},
+         ELSE [I EXCEPT !.a = St!AWrite(@, e.p, TRUE), !.rw = @ \cup {e.p}, !.known = @ \cup {e.p}, !.dmg = @ \ {e.p}, !.bad = @ \ {e.p}, !.soft = @ \ {e.p},
                         !.hurt = IF I.init THEN @ \ {e.p} ELSE (@ \cup I.known) \ {e.p}]
     [] e.op = "load_root" -> IF e.res = "ok" THEN [I EXCEPT !.root = e.r, !.rfd = InFdMap(InFiles(h, e.r)) @@ @] ELSE I
     [] e.op = "load_enc"  -> IF e.res = "ok" THEN [I EXCEPT !.enc = e.e, !.cc = @ \cup InSeqSet(h.encs[e.e])] ELSE I
@@ -343,8 +352,8 @@ InEventOK(h, I, e, D) ==
 
 \* the judgement: <<conforms, deviations used>>
 InDevsOf(e) ==
-  CASE e.op \in {"read_p", "read_f", "reads_p", "reads_f", "info"} -> {"FX08a", "FX08b", "FX08d", "FX08g"}
-    [] e.op \in {"read_c", "reads_c"} -> {"FX08b", "FX08g"}
+  CASE e.op \in {"read_p", "read_f", "reads_p", "reads_f", "info"} -> {"FX08a", "FX08b", "FX08d", "FX08g", "FX08k"}
+    [] e.op \in {"read_c", "reads_c", "read_e"} -> {"FX08b", "FX08g", "FX08k"}
     [] e.op = "stats"  -> {"FX08f", "FX08g"}
     [] e.op = "verify" -> {"FX08c", "FX08g"}
     [] OTHER -> {"FX08b", "FX08g"}
@@ -600,9 +609,14 @@ KiBucket(h, k) == h.keys[k].bucket
 KiDrop(m, S)   == [x \in DOMAIN m \ S |-> m[x]]
 KiAfter(h, K, e) ==
   CASE e.op = "add" /\ e.res = "ok"   -> [K EXCEPT !.pend = InPut(@, e.k, <<e.id, e.off, e.size>>)]
-    [] e.op = "flush" /\ e.res = "ok" -> LET S == {k \in DOMAIN K.pend : KiBucket(h, k) = e.b}
-                                         IN [K EXCEPT !.sv = [k \in DOMAIN K.sv \cup S |-> IF k \in S THEN K.pend[k] ELSE K.sv[k]],
-                                                      !.pend = KiDrop(@, S)]
+    \* a flush with something to merge rewrites the bucket's file: a durable point for that bucket (C05)
+    [] e.op = "flush" /\ e.res = "ok" -> LET S  == {k \in DOMAIN K.pend : KiBucket(h, k) = e.b}
+                                             nb == [k \in DOMAIN K.sv \cup S |-> IF k \in S THEN K.pend[k] ELSE K.sv[k]]
+                                             B  == {k \in DOMAIN nb : KiBucket(h, k) = e.b}
+                                         IN IF S = {} THEN K
+                                            ELSE [K EXCEPT !.sv = nb, !.pend = KiDrop(@, S),
+                                                           !.dsv = [k \in {x \in DOMAIN K.dsv : KiBucket(h, x) # e.b} \cup B |-> IF k \in B THEN nb[k] ELSE K.dsv[k]],
+                                                           !.dpend = KiDrop(@, {k \in DOMAIN K.dpend : KiBucket(h, k) = e.b})]
     [] e.op = "save" /\ e.res = "ok"  -> [K EXCEPT !.dsv = K.sv, !.dpend = K.pend]
     [] e.op = "reload" /\ e.res = "ok" -> [K EXCEPT !.sv = K.dsv, !.pend = K.dpend]
     [] e.op = "flip" /\ e.res = "ok"  -> [K EXCEPT !.flt = <<e.b, e.pos>>]
